@@ -518,6 +518,8 @@ def check_consistency(graphs: Iterable[ir.Graph]) -> list[str]:
                 values[id(o)] = o
                 if o.producer() is not n or o.index() != i:
                     bad.append(f"output {i} of node {n.name!r}: producer/index do not point back")
+                if o.graph is not g:
+                    bad.append(f"output {i} of node {n.name!r}: Value.graph is another graph than its producer's")
         for v in g.inputs:
             values[id(v)] = v
             if not v.is_graph_input() or owner_graph_of(v) is not g:
@@ -528,6 +530,8 @@ def check_consistency(graphs: Iterable[ir.Graph]) -> list[str]:
             values[id(v)] = v
             if not v.is_graph_output() or owner_graph_of(v) is not g:
                 bad.append(f"graph output {v.name!r}: flag/owner inconsistent")
+            if v.producer() is not None and v.producer().graph is not g:
+                bad.append(f"graph output {v.name!r}: produced by a node of another graph")
         for k, v in g.initializers.items():
             values[id(v)] = v
             if k != v.name:
@@ -1048,8 +1052,11 @@ def snapshot_model(model: ir.Model) -> dict:
     body["values"] = vals
     body["tensors"] = [[type(t).__name__, tensor_content(t)] for t in num.tobjs]
     return {"body": body, "tensor_names": [t.name for t in num.tobjs],
+            # only initializers of graphs that are part of the model are written (and aligned); a value
+            # can still be the initializer of a graph that was detached from the model
             "init_tensor": {num.t(v.const_value): v.name for v in num.vobjs
-                            if v.is_initializer() and v.const_value is not None}}
+                            if v.is_initializer() and v.const_value is not None
+                            and id(v.graph) in {id(g) for g0 in model_graphs(model) for g in iter_graph_tree(g0)}}}
 
 
 # --------------------------------------------------------------------------- isomorphism oracle
@@ -1118,11 +1125,11 @@ class IsoChecker:
         self.eq([a.name, a.type, _falsy_none(a.doc_string)], [b.name, b.type, _falsy_none(b.doc_string)], where)
         AT = ir.AttributeType
         if a.type == AT.GRAPH:
-            self.graph(a.value, b.value, where + ".g", main=False)
+            self.graph(a.value, b.value, where + ".g", main=False, ir_version=self.ir_version)
         elif a.type == AT.GRAPHS:
             self.eq(len(a.value), len(b.value), where + ".graphs#len")
             for i, (x, y) in enumerate(zip(a.value, b.value)):
-                self.graph(x, y, f"{where}.graphs[{i}]", main=False)
+                self.graph(x, y, f"{where}.graphs[{i}]", main=False, ir_version=self.ir_version)
         else:
             self.eq(_attr_content(a, _Numbering(), None), _attr_content(b, _Numbering(), None), where)
 
@@ -1144,11 +1151,26 @@ class IsoChecker:
         if ir_version >= 11:
             self.devcfg(a.device_configurations, b.device_configurations, where + ".device_configurations")
 
+    cfgs_a: tuple = ()
+    cfgs_b: tuple = ()
+    ir_version: int = 0
+
+    @staticmethod
+    def _cfg_index(c, cfgs):
+        for i, x in enumerate(cfgs):
+            if x is c:
+                return i
+        return None
+
     def devcfg(self, a, b, where):
         self.eq(len(a), len(b), where + "#len")
         for x, y in zip(a, b):
             self.eq([x.configuration.name if x.configuration else None, x.pipeline_stage],
                     [y.configuration.name if y.configuration else None, y.pipeline_stage], where)
+            # the node refers to the model's configuration (devices included), not to a name-only stand-in
+            if self._cfg_index(x.configuration, self.cfgs_a) is not None:
+                self.eq([_cfg_token(x.configuration), self._cfg_index(x.configuration, self.cfgs_a)],
+                        [_cfg_token(y.configuration), self._cfg_index(y.configuration, self.cfgs_b)], where + ".configuration")
             self.eq(len(x.sharding_specs), len(y.sharding_specs), where + ".specs#len")
             for s, t in zip(x.sharding_specs, y.sharding_specs):
                 self.value(s.value, t.value, where + ".spec.value")
@@ -1207,6 +1229,8 @@ class IsoChecker:
                     len([u for u in b.uses() if id(u.node) in self.nodes_b]), w + ".uses#len")
 
     def model(self, a: ir.Model, b: ir.Model):
+        self.cfgs_a, self.cfgs_b = tuple(a.device_configurations), tuple(b.device_configurations)
+        self.ir_version = a.ir_version
         self.eq([a.ir_version, _falsy_none(a.producer_name), _falsy_none(a.producer_version), _falsy_none(a.domain),
                  _falsy_none(a.model_version), _falsy_none(a.doc_string), dict(a.metadata_props)],
                 [b.ir_version, _falsy_none(b.producer_name), _falsy_none(b.producer_version), _falsy_none(b.domain),
@@ -1228,6 +1252,10 @@ class IsoChecker:
         self.finish_values()
 
 
+def _cfg_token(c):
+    return None if c is None else [c.name, c.num_devices, tuple(c.device_names)]
+
+
 def iso_mismatch(a: ir.Model, b: ir.Model) -> str | None:
     try:
         IsoChecker().model(a, b)
@@ -1239,13 +1267,15 @@ def iso_mismatch(a: ir.Model, b: ir.Model) -> str | None:
 # --------------------------------------------------------------------------- serializability (oracle side)
 
 
-def serializable_reason(model: ir.Model) -> str | None:
+def serializable_reason(model: ir.Model, notes: list | None = None) -> str | None:
     """None when the model can be expected to round-trip isomorphically: names needed for references
-    are non-empty and unique per scope chain, every referenced value is defined in an enclosing
-    scope, graphs nest as a tree, initializers carry tensors.  Otherwise the first reason."""
+    are non-empty and unique per graph, every referenced value is defined in an enclosing scope and
+    is the innermost definition of its name seen from the referencing node (a nested graph may
+    shadow a name of an enclosing graph; "shadowing" is then appended to `notes`), graphs nest as a
+    tree, initializers carry tensors.  Otherwise the first reason."""
     seen_graphs: set[int] = set()
 
-    def graph(g, chain_names: set[str], chain_vals: set[int], function=False) -> str | None:
+    def graph(g, chain_names: dict, chain_vals: set[int], function=False) -> str | None:
         if id(g) in seen_graphs:
             return "graph object shared"
         seen_graphs.add(id(g))
@@ -1267,7 +1297,8 @@ def serializable_reason(model: ir.Model) -> str | None:
             return "value defined twice"
         if set(ids) & chain_vals:
             return "value defined in two scopes"
-        names = set(chain_names)
+        names = dict(chain_names)
+        local: set[str] = set()
         for v in defs:
             if v.name is None:
                 return "defined value without a name"
@@ -1277,9 +1308,12 @@ def serializable_reason(model: ir.Model) -> str | None:
                 if v.uses() or v.is_graph_output() or emitted_info(token_of_value(v)[0]) != [None, None, None]:
                     return "empty-named output that is used or carries information"
                 continue
-            if v.name in names:
-                return "duplicate name in scope chain"
-            names.add(v.name)
+            if v.name in local:
+                return "duplicate name in one graph"
+            local.add(v.name)
+            if v.name in names and notes is not None:
+                notes.append("shadowing")
+            names[v.name] = id(v)
         vals = chain_vals | set(ids)
         for v in g.outputs:
             if id(v) not in set(ids) or not v.name:
@@ -1288,6 +1322,8 @@ def serializable_reason(model: ir.Model) -> str | None:
             for v in n.inputs:
                 if v is not None and (id(v) not in vals or not v.name):
                     return "node input not defined in an enclosing scope"
+                if v is not None and names.get(v.name) != id(v):
+                    return "node input shadowed by an inner definition of the same name"
             for o in n.outputs:
                 if o.is_graph_output() != any(o is x for x in g.outputs):
                     return "is_graph_output flag of a node output disagrees with its graph"
@@ -1295,6 +1331,8 @@ def serializable_reason(model: ir.Model) -> str | None:
                 for s in c.sharding_specs:
                     if s.value is None or id(s.value) not in vals or not s.value.name:
                         return "sharding spec value not defined in scope"
+                    if names.get(s.value.name) != id(s.value):
+                        return "sharding spec value shadowed by an inner definition of the same name"
                 if c.configuration is None or not c.configuration.name:
                     return "device configuration without name"
             if len({a.name for a in n.attributes.values()}) != len(n.attributes):
@@ -1305,7 +1343,7 @@ def serializable_reason(model: ir.Model) -> str | None:
                     return r
         return None
 
-    r = graph(model.graph, set(), set())
+    r = graph(model.graph, {}, set())
     if r:
         return r
     for f in model.functions.values():
@@ -1313,7 +1351,16 @@ def serializable_reason(model: ir.Model) -> str | None:
             return "function with initializers"
         if f.overload and model.ir_version < 10:
             return "function overload in IR version < 10"
-        r = graph(f.graph, set(), set(), function=True)
+        if model.ir_version < 10:
+            # the IR<10 format stores function value info under "domain::name/value" in the main graph;
+            # identifiers that cannot be split back at the first "::" and the first "/" have no representation
+            for v in list(f.inputs) + [o for n in f for o in n.outputs]:
+                full = f"{f.domain}::{f.name}/{v.name}"
+                d2, _, rest = full.partition("::")
+                n2, _, v2 = rest.partition("/")
+                if (d2, n2, v2) != (f.domain, f.name, v.name):
+                    return "function identifier not representable in IR version < 10 value-info names"
+        r = graph(f.graph, {}, set(), function=True)
         if r:
             return "function: " + r
     return None
